@@ -128,6 +128,7 @@ class CallsMixin:
         st.bump_frontier('call')   # even side-effect free callees may allocate what they return
         for t in targets:
             self.havoc_target(st, t, 'mod')
+        self.havoc_boxed_pointees(st, args)
         vals = []
         for k, rt in enumerate(rtypes):
             v = V.fresh_val(types, rt, 'ret_%s_%d' % (short.split('.')[-1], st.callcount))
@@ -393,6 +394,7 @@ class CallsMixin:
             if l is not None:
                 st.store(l, v)
                 cx.assumed_used.add('frame-stable over opaque calls (assumed): ' + txt)
+        self.havoc_boxed_pointees(st, args)
         st.callcount += 1
         vals = []
         for k, rt in enumerate(rtypes):
@@ -401,6 +403,15 @@ class CallsMixin:
             vals.append(v)
         self.set_result(st, ins, vals)
         return None
+
+    def havoc_boxed_pointees(self, st, args):
+        """an interior pointer passed inside an interface value (e.g. &x.f as `any`): the callee may
+        write through it, whatever its contract says about named locations"""
+        for a in args:
+            if isinstance(a, Val) and self.types.kind(a.t) == 'iface' and a.loc is not None:
+                nv = V.fresh_val(self.types, a.loc.t, 'boxedptr')
+                st.store(a.loc, nv)
+                st.load(a.loc)
 
     def stable_snapshot(self, st, fr):
         """(text, loc, value) of the locations declared frame-stable, and of the cells of the
@@ -487,12 +498,15 @@ class CallsMixin:
                 return self.body_writes(st, callee, fnd)
             return 'all'
         sig = self.prog.sigs.get(callee) or {}
-        real = None
-        if all(self.defined_outside(fr, a, body) for a in call['args']):
-            try:
-                real = [self.operand(st, fr, a) for a in call['args']]
-            except Exception:
-                real = None
+        real = []
+        for a in call['args']:
+            v = None
+            if self.defined_outside(fr, a, body):
+                try:
+                    v = self.operand(st, fr, a)
+                except Exception:
+                    v = None
+            real.append(v)
         return self.contract_writes(st, con, sig, real)
 
     def closure_static(self, fr, fnv):
@@ -582,11 +596,20 @@ class CallsMixin:
         try:
             env = {}
             if sig is not None:
+                isreal = set()
                 for k, p in enumerate(sig.get('params') or []):
-                    if real is not None and k < len(real):
+                    if real is not None and k < len(real) and real[k] is not None:
                         env[p['name']] = real[k]
+                        isreal.add(id(real[k]))
                     else:
                         env[p['name']] = V.fresh_val(types, p['type'], 'w_' + p['name'])
+                realrefs = []
+                for v in (real or []):
+                    if v is not None and v.lv:
+                        realrefs += [t for t in v.lv.values() if z3.is_int(t)]
+
+                def known(ref):
+                    return any(ref.eq(t) for t in realrefs)
             else:
                 return 'all'
             ev = Ev(self.cx, tmp, env, con.pkg, None, con.imports)
@@ -596,13 +619,13 @@ class CallsMixin:
                 except SpecError:
                     return 'all'
                 if t.kind == 'loc':
-                    out.append(((t.loc.fam, t.loc.tk, t.loc.static_path()), t.loc.ref if real is not None else None))
+                    out.append(((t.loc.fam, t.loc.tk, t.loc.static_path()), t.loc.ref if known(t.loc.ref) else None))
                 elif t.kind == 'range':
                     if t.arr is not None:
                         return 'all'
-                    out.append((('elems', t.tk, ('[]',)), t.sl.lv[('b',)] if real is not None else None))
+                    out.append((('elems', t.tk, ('[]',)), t.sl.lv[('b',)] if known(t.sl.lv[('b',)]) else None))
                 elif t.kind == 'map':
-                    out.append((('map', t.tk, ()), t.ref if real is not None else None))
+                    out.append((('map', t.tk, ()), t.ref if known(t.ref) else None))
                 elif t.kind == 'region':
                     out.append(((t.fam, t.tk, ()), None))
         finally:
